@@ -554,7 +554,10 @@ def oracle_c10(w: World, rec: dict) -> list[str]:
     """Complete, feasible, side-effect-free decision (planner clauses)."""
     bad = []
     if rec["err"]:
-        return [f"raised {rec['err'].split(':')[0]}"]
+        cls = rec["err"].split(":")[0]
+        if cls == "AttributeError" and "'int' object has no attribute 'Start'" in rec["err"]:
+            return ["schedule() raised AttributeError seeding a SCHEDULED task that has an incompatible (worker, strategy) pair"]
+        return [f"schedule() raised {cls}"]
     f = w.spec["flags"]
     pls = list(rec["placements"])
     names = [p.task.unique_name for p in pls]
@@ -1041,11 +1044,37 @@ def gen_world(rng, kind: str) -> dict:
         flags["enforce_deadlines"] = rng.random() < 0.5
     if kind == "deadline":
         flags["release_taskgraphs"] = False
-    # running occupancy bookkeeping so that RUNNING tasks really fit
-    free = [dict() for _ in order]
-    for i, wk in enumerate(order):
+    # occupancy bookkeeping so that RUNNING / SCHEDULED tasks are jointly feasible (reachable states)
+    totals = []
+    for wk in order:
+        tot = {}
         for r, q in wk["res"]:
-            free[i][r] = free[i].get(r, 0) + q
+            tot[r] = tot.get(r, 0) + q
+        totals.append(tot)
+    booked = [[] for _ in order]  # per worker: (start, end, req dict), half-open
+
+    def fits(wi, req, s0, e0):
+        reqd = {}
+        for rr, q in req:
+            reqd[rr] = reqd.get(rr, 0) + q
+        if any(totals[wi].get(rr, 0) < q for rr, q in reqd.items()):
+            return False
+        for tau in [s0] + [b[0] for b in booked[wi] if s0 <= b[0] < e0]:
+            use = dict(reqd)
+            for (bs, be, breq) in booked[wi]:
+                if bs <= tau < be:
+                    for rr, q in breq.items():
+                        use[rr] = use.get(rr, 0) + q
+            if any(q > totals[wi].get(rr, 0) for rr, q in use.items()):
+                return False
+        return True
+
+    def book(wi, req, s0, e0):
+        reqd = {}
+        for rr, q in req:
+            reqd[rr] = reqd.get(rr, 0) + q
+        booked[wi].append((s0, e0, reqd))
+
     for gi in range(n_graphs):
         if total >= max_tasks:
             break
@@ -1088,44 +1117,45 @@ def gen_world(rng, kind: str) -> dict:
                 st = "SCHEDULED"  # planned ahead by an earlier invocation
             else:
                 st = "VIRTUAL"
+            release = max(0, now - rng.randint(0, 3))
+            plan_ = None
             if st in ("RUNNING", "SCHEDULED", "COMPLETED"):
-                # find a (worker, strategy) that fits (total capacity; RUNNING also current free)
                 opts = []
-                for wi, wk in enumerate(order):
-                    tot = {}
-                    for rr, q in wk["res"]:
-                        tot[rr] = tot.get(rr, 0) + q
-                    for si, s in enumerate(t["strats"]):
-                        if all(tot.get(rr, 0) >= q for rr, q in s["req"]) and (
-                            st != "RUNNING" or all(free[wi].get(rr, 0) >= q for rr, q in s["req"])
-                        ):
-                            opts.append((wi, si))
+                for wi in range(len(order)):
+                    for si, s_ in enumerate(t["strats"]):
+                        rt = s_["runtime"]
+                        if st == "RUNNING":
+                            started = min(now, max(release, now - rng.randint(0, max(0, rt - 1))))
+                            remaining = max(1, rt - (now - started))
+                            if fits(wi, s_["req"], now, now + remaining):
+                                opts.append((wi, si, started, remaining))
+                        elif st == "SCHEDULED":
+                            at = now + rng.randint(1, 5)
+                            if fits(wi, s_["req"], at, at + rt):
+                                opts.append((wi, si, at, rt))
+                        else:
+                            if all(totals[wi].get(rr, 0) >= q for rr, q in s_["req"]):
+                                opts.append((wi, si, release, 0))
                 if not opts:
                     st = "RELEASED" if all(s == "COMPLETED" for s in pstates) else "VIRTUAL"
                 else:
-                    fit = rng.choice(opts)
+                    plan_ = rng.choice(opts)
             states[ti] = st
             t["state"] = st
-            release = max(0, now - rng.randint(0, 3))
             if st == "VIRTUAL":
                 t["release"] = None if rng.random() < 0.6 else now + rng.randint(0, 6)
             else:
                 t["release"] = release
             if st == "RELEASED" and rng.random() < 0.15 and flags["lookahead"] > 0:
                 t["release"] = now + rng.randint(1, 4)  # released in the future, inside/outside the lookahead
-            wi_si = fit
-            if st in ("RUNNING", "SCHEDULED", "COMPLETED"):
-                wi, si = wi_si
-                rt = t["strats"][si]["runtime"]
+            if plan_ is not None:
+                wi, si, at, rem = plan_
                 if st == "RUNNING":
-                    started = max(t["release"], now - rng.randint(0, rt - 1)) if rt > 1 else now
-                    started = min(started, now)
-                    remaining = max(1, rt - (now - started))
-                    for rr, q in t["strats"][si]["req"]:
-                        free[wi][rr] -= q
-                    t["prev"] = {"w": wi, "s": si, "time": started, "sched_at": t["release"], "remaining": remaining}
+                    book(wi, t["strats"][si]["req"], now, now + rem)
+                    t["prev"] = {"w": wi, "s": si, "time": at, "sched_at": t["release"], "remaining": rem}
                 elif st == "SCHEDULED":
-                    t["prev"] = {"w": wi, "s": si, "time": now + rng.randint(1, 5), "sched_at": max(0, now - 1)}
+                    book(wi, t["strats"][si]["req"], at, at + rem)
+                    t["prev"] = {"w": wi, "s": si, "time": at, "sched_at": max(0, now - 1)}
                 else:
                     t["prev"] = {"w": wi, "s": si, "time": t["release"], "sched_at": t["release"], "finish": now}
             # deadline
@@ -1229,6 +1259,11 @@ def run_case(spec: dict, want_opt: bool):
     w = build_world(spec)
     rec = real_schedule(w)
     case = None
+    if rec["err"] is not None and rec.get("tasks") is not None:
+        # an exception is an outcome: the model must predict it from the same instance
+        rec["solved"] = False
+        rec["inst"] = extract_inst(w, rec)
+        case = {"suite": SUITE, "inst": rec["inst"], "sigma": None, "opt": False, "model": False}
     if rec["err"] is None and rec.get("tasks") is not None and rec["model"] is not None:
         inst = extract_inst(w, rec)
         m = rec["model"]
@@ -1255,6 +1290,11 @@ def compare_case(w, rec, reply, want_opt) -> list[str]:
     dis = []
     if "protocol_error" in reply:
         return [f"driver protocol error: {reply['protocol_error']}"]
+    if rec["err"] is not None or "err" in reply:
+        real = None if rec["err"] is None else rec["err"].split(":")[0]
+        if reply.get("err") != real:
+            return [f"exception outcome differs: real={real} model={reply.get('err')}"]
+        return []
     dis += diff_models(canon_gurobi(rec["model"]), canon_lean(reply))
     real = real_decisions(w, rec)
     if rec["solved"]:
@@ -1345,7 +1385,7 @@ def run(prop: str, chk, rng, tier: str) -> list[str]:
         if rec["err"]:
             chk.count("ilp:raised")
         if reply is not None:
-            chk.count("ilp:solved" if rec["solved"] else "ilp:no-solution")
+            chk.count("ilp:raised-predicted" if rec["err"] else "ilp:solved" if rec["solved"] else "ilp:no-solution")
             chk.count(f"ilp:tasks_with_vars={len(rec['tasks'])}")
             chk.traces_validated += 1
             d = compare_case(w, rec, reply, want_opt)
@@ -1359,12 +1399,12 @@ def run(prop: str, chk, rng, tier: str) -> list[str]:
         if prop in ("C10", "C11", "C12"):
             for b in oracle_for(prop, w, rec):
                 chk.violation(f"ilp {prop}: {b}", {"planner": NAME, "prop": prop, "spec": spec, "what": b})
-        if prop == "C11" and reply is not None:
+        if prop == "C11" and reply is not None and rec["model"] is not None:
             for b in adversarial_precedence(w, rec):
                 chk.count("ilp:adversarial-hit")
                 chk.violation(f"ilp C11: {b.split(':')[0]} of the captured model violates precedence", {"planner": NAME, "prop": prop, "spec": spec, "what": b, "adversarial": True})
             chk.count("ilp:adversarial-queries")
-        if prop == "C14" and reply is not None and f["goal"] == "max_goodput":
+        if prop == "C14" and reply is not None and rec["model"] is not None and f["goal"] == "max_goodput":
             try:
                 got, best, sig = c14_verdict(w, rec)
                 best_model_semantics = brute_force_goodput(w, rec)
@@ -1401,10 +1441,10 @@ def search(prop: str, chk, rng, tier: str) -> None:
                 continue
             for b in oracle_for(p_, w, rec):
                 chk.violation(f"ilp {p_}: {b}", {"planner": NAME, "prop": p_, "spec": spec, "what": b}, found_input=True)
-        if prop == "C11" and case is not None:
+        if prop == "C11" and case is not None and rec["model"] is not None:
             for b in adversarial_precedence(w, rec):
                 chk.violation(f"ilp C11: {b.split(':')[0]} of the captured model violates precedence", {"planner": NAME, "prop": prop, "spec": spec, "what": b, "adversarial": True}, found_input=True)
-        if prop == "C14" and case is not None and spec["flags"]["goal"] == "max_goodput" and _c14_bounded(spec):
+        if prop == "C14" and case is not None and rec["model"] is not None and spec["flags"]["goal"] == "max_goodput" and _c14_bounded(spec):
             try:
                 got, best, sig = c14_verdict(w, rec)
             except TimeoutError:
@@ -1419,7 +1459,7 @@ def replay(rp: dict) -> int:
     w, rec, case = run_case(spec, False)
     if prop in ("C10", "C11", "C12"):
         bad = oracle_for(prop, w, rec)
-        if prop == "C11" and rp.get("adversarial") and case is not None:
+        if prop == "C11" and rp.get("adversarial") and case is not None and rec["model"] is not None:
             bad += adversarial_precedence(w, rec)
         for b in bad:
             print(f"reproduced: ilp {prop}: {b}")
